@@ -209,7 +209,7 @@ def gen_sections(rng, p_bad):
             r = rng.random()
             if i + 1 < n and r < 0.7:
                 secs[me].append(("inherit", "%s%d" % (part, i + 1)))
-            elif r < 0.7 + p_bad * 0.5:
+            elif 0.7 <= r < 0.7 + p_bad * 0.5:
                 kind = rng.choice(["self", "missing", "cycle", "cross"])
                 if kind == "self":
                     secs[me].append(("inherit", me))
@@ -503,7 +503,7 @@ def _run_checks(ck, vela, af, rng, world, runner):
         add("int", "cfgint " + enc(s), ri, {"int": s})
 
     # ---------------- _read_config directly ----------------------------------------------------
-    n_files = 150 if not thorough else 1500
+    n_files = 150 if not thorough else 3000
     for fi in range(n_files):
         n = rng.choice([1, 2, 3, 4, 5, 6, 7])
         names = ["Part.N%d" % i for i in range(n)]
@@ -535,7 +535,7 @@ def _run_checks(ck, vela, af, rng, world, runner):
 
     # ---------------- scenarios: files on disk, direct construction and main() ----------------
     cwds = [os.path.join(world.root, d) for d in ("w0", "w1", "w1/sub")] + [world.bundled]
-    n_scen = 60 if not thorough else 500
+    n_scen = 60 if not thorough else 1000
     per_scen_af = 25
     per_scen_main = 30
     for si in range(n_scen):
@@ -576,6 +576,30 @@ def _run_checks(ck, vela, af, rng, world, runner):
                 return "Child"
             return rng.choice(lst)
 
+        def names_in(paths):
+            """(system names, memory names) defined by the parsable files among `paths` (absolute)"""
+            sn, mn = [], []
+            for q in paths:
+                for sec, _o in (parsed.get(q) or []):
+                    if sec.startswith("System_Config."):
+                        sn.append(sec.split(".", 1)[1])
+                    elif sec.startswith("Memory_Mode."):
+                        mn.append(sec.split(".", 1)[1])
+            return sorted(set(sn)), sorted(set(mn))
+
+        def documented_location(cwd, pth, bundled):
+            c = os.path.normpath(pth)
+            parts = c.split("/")
+            if len(parts) == 2 and parts[0] not in ("", "..", "~") and not c.startswith("."):
+                return os.path.normpath(os.path.join(bundled, c))
+            return os.path.normpath(os.path.join(cwd, c))
+
+        def pick_sel(defined, fallback):
+            r = rng.random()
+            if defined and r < 0.8:
+                return "Child" if "Child" in defined and rng.random() < 0.4 else rng.choice(defined)
+            return pick_name(fallback)
+
         def env_for(cwd, path_args, bundled):
             cand = set()
             for p in path_args:
@@ -597,7 +621,8 @@ def _run_checks(ck, vela, af, rng, world, runner):
             acc = rng.choice(ACCS)
             if rng.random() < 0.05:
                 acc = rng.choice([acc.upper(), "ethos-u99", ""])
-            sysc, mem = pick_name(sys_names), pick_name(mem_names)
+            sn, mn = names_in([os.path.normpath(os.path.join(cwd, f)) for f in (files or [])])
+            sysc, mem = pick_sel(sn, sys_names), pick_sel(mn, mem_names)
             if files is None and rng.random() < 0.7:
                 sysc = mem = dflt
             cli = None if rng.random() < 0.55 else int(rng.choice(SIZES + ["-5", "100000"]))
@@ -615,7 +640,7 @@ def _run_checks(ck, vela, af, rng, world, runner):
                       "tree": {os.path.relpath(p, world.root): world.files[p] for p in env_files}}
             spec = None if use_imx else "cfgspecaf " + " ".join(env_toks + ftoks + tail) + " " + obs_tokens(real)
             add("af", line(1 if use_imx else 0), real, replay, spec_line=spec,
-                extra={"imx": use_imx, "alt": [line(2)] if use_imx else []})
+                extra={"imx": use_imx, "alt": [line(2), line(0)] if use_imx else []})
 
         # ---- through vela.main ---------------------------------------------------------------
         for _ in range(per_scen_main):
@@ -627,10 +652,13 @@ def _run_checks(ck, vela, af, rng, world, runner):
                 pool = ["VendA/a.ini", "VendA/a.ini", "VendB/b.ini", "./VendA/a.ini", "VendA//a.ini", f_bundled, f_local, f_deep,
                         os.path.relpath(f_local, cwd), os.path.relpath(f_deep, cwd), "local.ini", "sub/deep/x.ini", "deep/x.ini",
                         "../local.ini", "VendA/missing.ini", "notini.txt", "VendC/a.ini", "~/a.ini", os.path.relpath(f_bad, cwd)]
-                cfgs = [rng.choice(pool) for _ in range(rng.choice([1, 1, 1, 1, 2, 2, 3]))]
+                good = [q for q in pool if q.endswith(".ini") and parsed.get(documented_location(cwd, q, world.bundled)) is not None]
+                cfgs = [rng.choice(good) if good and rng.random() < 0.85 else rng.choice(pool)
+                        for _ in range(rng.choice([1, 1, 1, 1, 2, 2, 3]))]
             acc = None if rng.random() < 0.4 else rng.choice(ACCS + (["ethos-u99"] if rng.random() < 0.1 else []))
-            sysc = None if rng.random() < 0.15 else pick_name(sys_names)
-            mem = None if rng.random() < 0.15 else pick_name(mem_names)
+            sn, mn = names_in([documented_location(cwd, q, world.bundled) for q in cfgs])
+            sysc = None if rng.random() < 0.15 else pick_sel(sn, sys_names)
+            mem = None if rng.random() < 0.15 else pick_sel(mn, mem_names)
             if not cfgs and rng.random() < 0.8:
                 sysc = rng.choice([None, dflt])
                 mem = rng.choice([None, dflt])
@@ -712,7 +740,7 @@ def _run_checks(ck, vela, af, rng, world, runner):
     ck.count("exhaustive_port_mappings", combos)
 
     # ---- malformed stream: a legal parent/child pair with exactly one damaged value -------------
-    n_mal = 400 if not thorough else 4000
+    n_mal = 400 if not thorough else 8000
     for mi in range(n_mal):
         secs = valid_pair_sections(rng)
         sec = rng.choice(list(secs))
@@ -792,6 +820,7 @@ def _run_checks(ck, vela, af, rng, world, runner):
             d.append("accdefault")
         return d
 
+    per_kind = {}
     broken = []           # correspondences that no longer hold (indices)
     unexplained_spec = []
     seen_dev = {}
@@ -799,7 +828,10 @@ def _run_checks(ck, vela, af, rng, world, runner):
     for i, (m, r) in enumerate(zip(outs, reals)):
         mt = meta[i]
         ck.count("req_" + mt["kind"])
-        ck.count("outcome_" + (r.split(" ")[0] if not r.startswith("ok") else "ok") if mt["kind"] in ("af", "main", "read") else "glue")
+        if mt["kind"] in ("af", "main", "read"):
+            ck.count("outcome_%s_%s" % (mt["kind"], r.split(" ")[0] if not r.startswith("ok") else "ok"))
+        else:
+            ck.count("glue")
         sv = spec_outs[mt["spec"]] if mt["spec"] is not None else None
         if sv is not None:
             ck.count("spec_" + ("accepts" if sv == "1" else "unspecified" if sv == "1u" else "REJECTS"))
@@ -813,9 +845,13 @@ def _run_checks(ck, vela, af, rng, world, runner):
                 best = min(matched[i], key=lambda v: len(deviations(v, mt["acc"])))
                 devs = deviations(best, mt["acc"])
         if spec_rejects:
-            what = ("documented rules (Lean Spec) reject the implementation's outcome for %s: got %s, spec says %s"
-                    % (json.dumps(mt["replay"].get("argv") or {k: mt["replay"].get(k) for k in ("call", "files", "accelerator", "system_config", "memory_mode", "arena_cache_size", "section", "key")}),
-                       r[:200], sv[2:260]))
+            shown = mt["replay"].get("argv") or {k: mt["replay"][k] for k in ("call", "files", "accelerator", "system_config", "memory_mode",
+                                                                              "arena_cache_size", "section", "key", "damaged")
+                                                 if mt["replay"].get(k) is not None}
+            if mt["kind"] == "read":
+                shown = dict(shown, call="_read_config")
+            what = ("documented rules (Lean Spec) reject the implementation's outcome for %s (cwd %s): got %s, spec says %s"
+                    % (json.dumps(shown), mt["replay"].get("cwd", "-"), r[:200], sv[2:260]))
             rep = dict(mt["replay"], implementation=r, spec_verdict=sv, model_documented_variant=m)
             if devs:
                 for d in devs:
@@ -827,7 +863,9 @@ def _run_checks(ck, vela, af, rng, world, runner):
                     ck.violation(what + " [explained by: %s]" % KEYS[d], rep, found_input=True, key=KEYS[d])
             else:
                 unexplained_spec.append(i)
-                ck.violation(what, rep, found_input=True)
+                per_kind[mt["kind"]] = per_kind.get(mt["kind"], 0) + 1
+                if per_kind[mt["kind"]] <= 4:
+                    ck.violation(what, rep, found_input=True)
         elif not explained:
             broken.append(i)
     if broken and not unexplained_spec:
@@ -899,6 +937,12 @@ def replay(ck):
     """re-run one recorded input against the code and the documented rules"""
     rec = json.load(open(ck.replay_arg))
     rp = rec["replay"]
+    now = None
+    same = False
+    if not isinstance(rp, dict) or not (rp.get("call") or "ini_text" in rp):
+        print("this replay file names a broken proof obligation / correspondence, not a single input:")
+        print(json.dumps(rp, indent=1)[:3000])
+        sys.exit(1)
     vela, af = import_vela()
     world = World()
     runner = Runner(vela, af)
@@ -912,7 +956,8 @@ def replay(ck):
             os.makedirs(cwd, exist_ok=True)
             argv = [a.replace(rp.get("root", "\0"), world.root) for a in rp["argv"]]
             print("argv:", argv, "cwd:", cwd)
-            print("implementation:", runner.run_main(argv, cwd, bundled))
+            now = runner.run_main(argv, cwd, bundled)
+            print("implementation:", now)
         elif rp.get("call", "").endswith("ArchitectureFeatures"):
             cls = vela.Imx93ArchitectureFeatures if rp["call"].startswith("Imx93") else af.ArchitectureFeatures
             cwd = os.path.join(world.root, rp.get("cwd", "."))
@@ -921,15 +966,20 @@ def replay(ck):
             if files is not None:
                 files = [f.replace(rp.get("root", "\0"), world.root) for f in files]
                 files = [os.path.join(world.root, f) if f in (rp.get("tree") or {}) else f for f in files]
-            print("implementation:", runner.run_af(cls, files, rp["accelerator"], rp["system_config"], rp["memory_mode"], rp["arena_cache_size"], cwd))
+            now = runner.run_af(cls, files, rp["accelerator"], rp["system_config"], rp["memory_mode"], rp["arena_cache_size"], cwd)
+            print("implementation:", now)
         elif "ini_text" in rp:
-            print("implementation:", runner.run_read(rp["ini_text"], rp["section"], rp["key"]))
+            now = runner.run_read(rp["ini_text"], rp["section"], rp["key"])
+            print("implementation:", now)
         print("recorded implementation outcome:", rp.get("implementation"))
         print("recorded verdict of the documented rules:", rp.get("spec_verdict"))
+        same = now is not None and now == rp.get("implementation")
+        print("reproduced: the implementation still gives the rejected outcome" if same else
+              "not reproduced: the implementation's outcome differs from the recorded one")
     finally:
         runner.restore()
         world.close()
-    sys.exit(0)
+    sys.exit(1 if same else 0)
 
 
 main_wrapper(main)
